@@ -10,7 +10,7 @@ from prettytable import MARKDOWN, PrettyTable
 from pydantic import Field, validate_call
 
 from primaite.interface.request import RequestResponse
-from primaite.simulator.core import RequestManager, RequestType, SimComponent
+from primaite.simulator.core import RequestFormat, RequestManager, RequestType, SimComponent
 from primaite.simulator.network.hardware.base import IPWiredNetworkInterface, UserManager, UserSessionManager
 from primaite.simulator.network.hardware.node_operating_state import NodeOperatingState
 from primaite.simulator.network.hardware.nodes.network.network_node import NetworkNode
@@ -317,29 +317,32 @@ class AccessControlList(SimComponent):
         # 4: destination ip address (str castable to IPV4Address (e.g. '10.10.1.2'))
         # 5: destination port (str name of a Port (e.g. "HTTP"))
         # 6: position (int)
-        rm.add_request(
-            "add_rule",
-            RequestType(
-                func=lambda request, context: RequestResponse.from_bool(
-                    self.add_rule(
-                        action=ACLAction[request[0]],
-                        protocol=None if request[1] == "ALL" else request[1],
-                        src_ip_address=None if request[2] == "ALL" else IPv4Address(request[2]),
-                        src_wildcard_mask=None if request[3] == "NONE" else IPv4Address(request[3]),
-                        src_port=None if request[4] == "ALL" else request[4],
-                        dst_ip_address=None if request[5] == "ALL" else IPv4Address(request[5]),
-                        dst_wildcard_mask=None if request[6] == "NONE" else IPv4Address(request[6]),
-                        dst_port=None if request[7] == "ALL" else request[7],
-                        position=int(request[8]),
-                    )
+        def _add_rule_request(request: RequestFormat, context: Dict) -> RequestResponse:
+            try:
+                added = self.add_rule(
+                    action=ACLAction[request[0]],
+                    protocol=None if request[1] == "ALL" else request[1],
+                    src_ip_address=None if request[2] == "ALL" else IPv4Address(request[2]),
+                    src_wildcard_mask=None if request[3] == "NONE" else IPv4Address(request[3]),
+                    src_port=None if request[4] == "ALL" else request[4],
+                    dst_ip_address=None if request[5] == "ALL" else IPv4Address(request[5]),
+                    dst_wildcard_mask=None if request[6] == "NONE" else IPv4Address(request[6]),
+                    dst_port=None if request[7] == "ALL" else request[7],
+                    position=int(request[8]),
                 )
-            ),
-        )
+            except ValueError as e:
+                return RequestResponse(status="failure", data={"reason": str(e)})
+            return RequestResponse.from_bool(added)
 
-        rm.add_request(
-            "remove_rule",
-            RequestType(func=lambda request, context: RequestResponse.from_bool(self.remove_rule(int(request[0])))),
-        )
+        def _remove_rule_request(request: RequestFormat, context: Dict) -> RequestResponse:
+            try:
+                removed = self.remove_rule(int(request[0]))
+            except ValueError as e:
+                return RequestResponse(status="failure", data={"reason": str(e)})
+            return RequestResponse.from_bool(removed)
+
+        rm.add_request("add_rule", RequestType(func=_add_rule_request))
+        rm.add_request("remove_rule", RequestType(func=_remove_rule_request))
         return rm
 
     def describe_state(self) -> Dict:
